@@ -29,8 +29,11 @@ def ref_spacing(F, metric):
 
 def gen_case(rng, max_n=40):
     N = rng.choice([2, 2, 3, 5, 8, 9, 17, rng.randint(2, max_n)]); M = rng.randint(1, 5)
-    style = rng.choice(["grid", "cont", "dups", "equispaced"])
-    if style == "grid":
+    style = rng.choice(["grid", "cont", "dups", "equispaced", "narrow"])
+    if style == "narrow":        # a range that is tiny relative to the magnitude of the objective (or tiny in absolute terms)
+        offs = [rng.choice([(1e6, 4.0), (1e3, 1e-3), (0.0, 5e-9), (0.0, 1.0), (-1e9, 100.0)]) for _ in range(M)]
+        F = [[o + w * rng.random() for (o, w) in offs] for _ in range(N)]
+    elif style == "grid":
         F = [[gens.dyadic(rng, 0, 4, 4) for _ in range(M)] for _ in range(N)]
     elif style == "cont":
         F = [[rng.random() for _ in range(M)] for _ in range(N)]
@@ -45,6 +48,8 @@ def gen_case(rng, max_n=40):
     A = np.array(F, dtype=float)
     if norm != "none":
         lo = A.min(axis=0) - rng.choice([0.0, 0.5, 1.0]); hi = A.max(axis=0) + rng.choice([0.0, 0.5, 2.0])
+        if style == "narrow":
+            lo = A.min(axis=0); hi = A.max(axis=0)
         if rng.random() < 0.25:
             j = rng.randrange(M); hi[j] = lo[j]                      # ideal == nadir in one dimension
         case["ideal"] = lo.tolist(); case["nadir"] = hi.tolist()
@@ -127,7 +132,7 @@ class C20(Check):
     ID = "C20"
     IMPORTS = "From PV Require Import Base.ListX Model.Crowding Model.Fallback Model.Spacing."
     RULE = ("SpacingIndicator(metric, pf, zero_to_one, ideal, nadir).do(F) on point sets of 2..40 points (quick) / 2..150 (thorough), 1..5 objectives, grid-valued, continuous, "
-            "with duplicates, equally spaced; metrics cityblock / euclidean / sqeuclidean / chebyshev (pdist modelled) and canberra (distance matrix as oracle); normalisation "
+            "with duplicates, equally spaced, with ranges that are tiny relative to the objective's magnitude; metrics cityblock / euclidean / sqeuclidean / chebyshev (pdist modelled) and canberra (distance matrix as oracle); normalisation "
             "off / ideal+nadir / derived from a Pareto front / mixed, with ideal = nadir in one dimension; compared bit-for-bit with the model (normalisation, distance matrix, "
             "second-smallest entry, NumPy pairwise summation, sqrt); independent formula, permutation / translation / scaling checks on the implementation; "
             "non-trivial = at least 3 points; distinct by hash")
